@@ -727,7 +727,8 @@ def run(ctx):
                            "raw_p": body_p.rstrip(" \t") + sp_ if sp_ else body_p,
                            "raw_a": body_a.rstrip(" \t") + sa_ if sa_ else body_a,
                            "raw_o": body_o.rstrip(" \t") + so_ if so_ else body_o,
-                           "ic": "%ignore_case" in sp_, "fkey": FKEY, "rows": rows, "src": fam, "spacing": cls})
+                           "ic": "%ignore_case" in sp_, "fkey": FKEY, "rows": rows, "src": fam, "spacing": cls,
+                           "neighbours": trng.random() < 0.4})
 
     payload = [dict({k: v for k, v in c.items() if k not in ("rows", "rows_list", "src")}, rows=c["rows_list"])
                for c in cases]
